@@ -466,7 +466,14 @@ func checkFillLoop(c *Ctx, p *GoProg, fd *ast.FuncDecl, name string, loop *ast.F
 	init, ok1 := loop.Init.(*ast.AssignStmt)
 	cond, ok2 := ast.Unparen(loop.Cond).(*ast.BinaryExpr)
 	post, ok3 := loop.Post.(*ast.IncDecStmt)
-	if !ok1 || !ok2 || !ok3 || len(init.Lhs) != 1 || init.Tok != token.DEFINE || post.Tok != token.INC {
+	// the counting-down form `for v := N; v > 0; v--` runs the same N rounds with v = N-j in round j
+	countDown := false
+	if ok1 && ok2 && ok3 && len(init.Lhs) == 1 && init.Tok == token.DEFINE && post.Tok == token.DEC && cond.Op == token.GTR {
+		if z, ok := p.ConstInt(cond.Y); ok && z == 0 {
+			countDown = true
+		}
+	}
+	if !countDown && (!ok1 || !ok2 || !ok3 || len(init.Lhs) != 1 || init.Tok != token.DEFINE || post.Tok != token.INC) {
 		c.Undecided(site, pos, "fill loop is not of the form `for v := A; v < B; v++`")
 		return
 	}
@@ -477,7 +484,7 @@ func checkFillLoop(c *Ctx, p *GoProg, fd *ast.FuncDecl, name string, loop *ast.F
 		return
 	}
 	cl, okc := ast.Unparen(cond.X).(*ast.Ident)
-	if !okc || p.ObjOf(cl) != vobj || cond.Op != token.LSS {
+	if !okc || p.ObjOf(cl) != vobj || (cond.Op != token.LSS && !countDown) {
 		c.Bad(site, pos, "fill loop condition is not the single test `v < B` (an extra or different condition can stop the fill early or late: "+p.Str(loop.Cond)+")", "SetNull/DeleteElems on a container whose end coincides with the end of the iterator's tape")
 		return
 	}
@@ -491,6 +498,10 @@ func checkFillLoop(c *Ctx, p *GoProg, fd *ast.FuncDecl, name string, loop *ast.F
 	A := env.Eval(init.Rhs[0])
 	B := env.Eval(cond.Y)
 	env.vars[vobj] = affAtom("j")
+	if countDown {
+		A, B = affK(0), env.Eval(init.Rhs[0])
+		env.vars[vobj] = B.Add(affAtom("j"), -1)
+	}
 	// snapshot of induction candidates before the body
 	type ind struct {
 		obj   types.Object
